@@ -247,6 +247,17 @@ def sstep (st : SSt) (l0 : Line) : SSt × Verdict :=
               | none => (st2, .specFail "C03.register" s!"registration of fresh id {hex8 h} created no session")
           | none => (st2, verdictModel)
     | _, _, _, _ => (st, .bad "sreg args")
+  | "sdie", _ =>
+    -- the session goes inactive (agent exit / operator mark): it stays in the table under its id
+    match l.impl with
+    | [_, sess] =>
+      match parseObsSessions ((sess.drop 9).toString) with
+      | some after =>
+        match identityCheck st.obs after with
+        | some e => ({ st with obs := after }, .specFail "C03.identity" e)
+        | none => ({ st with obs := after }, .ok)
+      | none => (st, .bad "sessions obs")
+    | _ => (st, .bad "sdie impl")
   | "sget", _ =>
     match l.impl with
     | [_, sess] =>
